@@ -533,6 +533,10 @@ func (st *tunnelServerStream) readMsgLocked() (data []byte, ok bool, err error) 
 			var err error
 			if halfClosedErr := st.halfClosed.Load(); halfClosedErr != nil {
 				err = halfClosedErr.error
+			} else if err = st.ctx.Err(); err == nil {
+				// receiver was cancelled, which only happens when the
+				// stream's context is done; never report a message
+				err = context.Canceled
 			}
 			return nil, true, err
 		}
